@@ -687,8 +687,16 @@ func (env *Env) evalUnary(x *ast.UnaryExpr, st *State) Val {
 		c.unsupported("%s: address-of non-literal", c.e.pos(x.Pos()))
 		return Val{T: c.fresh("addr", "Int"), Ty: types.NewPointer(tInt)}
 	case token.ARROW:
-		c.unsupported("%s: channel receive", c.e.pos(x.Pos()))
-		return Val{T: c.fresh("recv", "Int"), Ty: tInt}
+		// channel receive: an arbitrary value of the element type (blocking not modelled)
+		c.trust("channel receives yield arbitrary values; blocking and ordering of channel operations are not modelled")
+		env.eval(x.X, st)
+		var et types.Type = tInt
+		if !env.contract {
+			if t := env.pkg.info.TypeOf(x); t != nil {
+				et = t
+			}
+		}
+		return env.havoc(st, "recv", et)
 	}
 	c.unsupported("%s: unary %s", c.e.pos(x.Pos()), x.Op)
 	return intVal("0")
